@@ -373,6 +373,17 @@ impl PlainSecretParams {
                 s2k,
                 nonce,
             } => {
+                // Unlocking supports usage AEAD only in combination with these S2K types:
+                // do not produce locked key material that can not be unlocked again.
+                ensure!(
+                    matches!(
+                        s2k,
+                        StringToKey::Argon2 { .. } | StringToKey::IteratedAndSalted { .. }
+                    ),
+                    "S2K usage AEAD is not allowed with S2K type {:?}",
+                    s2k.id()
+                );
+
                 let key = s2k.derive_key(passphrase, sym_alg.key_size())?;
 
                 let enc_data = match version {
